@@ -4,6 +4,7 @@ import (
 	"fmt"
 	"go/types"
 	"math"
+	"sort"
 	"strings"
 
 	"golang.org/x/tools/go/ssa"
@@ -164,6 +165,24 @@ func init() {
 			lo, hi := concreteInt(a[1]), concreteInt(a[2])
 			in.obligationAssume(in.ts.And(in.ts.SLE(in.ts.BV(uint64(int64(lo)), 64), t), in.ts.SLE(t, in.ts.BV(uint64(int64(hi)), 64))))
 			return in.ts.BV(uint64(int64(in.concretize(t, lo, hi, "vConcrete"))), 64)
+		},
+		"vGuardOn": func(in *Interp, fn *ssa.Function, a []Value) Value {
+			// a[0]: pointer to the struct whose embedded mutex guards everything reachable from it
+			v := a[0]
+			if iv, ok := v.(IfaceV); ok {
+				v = iv.v
+			}
+			p := v.(Ptr)
+			in.guardCells = map[*Cell]bool{}
+			in.guardMaps = map[*MapObj]bool{}
+			in.collectGuarded(Ptr{c: p.c}, 0)
+			in.guardMu = p.c
+			in.guardOn = true
+			return nil
+		},
+		"vGuardOff": func(in *Interp, fn *ssa.Function, a []Value) Value {
+			in.guardOn = false
+			return nil
 		},
 		"vSymbolic": func(in *Interp, fn *ssa.Function, a []Value) Value { return in.ts.True },
 	}
@@ -336,7 +355,7 @@ func (in *Interp) checkGuard(kind string) {
 		if in.spec > 0 {
 			panic(specAbort{"guard violation in speculation"})
 		}
-		in.recordViolation("assert", "lock-coverage", "unlocked "+kind+" of guarded state", nil, "", nil)
+		in.recordViolation("ghost", "C18.lock-coverage", "unlocked "+kind+" of state guarded by the mutex", nil, "", nil)
 	}
 }
 
@@ -357,6 +376,17 @@ func (in *Interp) doAssert(c *Term, id string, kfID string, region *Term) {
 		}
 	}
 	in.Stats.Asserts++
+	if kfID != "" && region != nil && in.cfg.KnownOpen[kfID] {
+		// known finding: violations inside its region are reported as such (once) and otherwise
+		// tolerated; anything outside the region is checked as usual
+		if in.violSeen["known:"+kfID+":"+id] == 0 {
+			inRegion := in.ts.And(in.ts.Not(c), region)
+			if in.feasible(inRegion) {
+				in.recordKnown(id, kfID, inRegion)
+			}
+		}
+		c = in.ts.Or(c, region)
+	}
 	bad := in.ts.Not(c)
 	if !in.cfg.EagerAsserts {
 		if c.IsConst() && c.C == 1 {
@@ -366,7 +396,7 @@ func (in *Interp) doAssert(c *Term, id string, kfID string, region *Term) {
 			return
 		}
 		if !(c.IsConst() && c.C == 0) {
-			in.pending = append(in.pending, pendingAssert{c, id, kfID, region})
+			in.pending = append(in.pending, pendingAssert{c, id, "", nil})
 			return
 		}
 	}
@@ -374,15 +404,28 @@ func (in *Interp) doAssert(c *Term, id string, kfID string, region *Term) {
 	case 0:
 		return
 	case 1:
-		in.recordViolation("assert", id, "assertion "+id+" fails on every input of this path", nil, kfID, region)
+		in.recordViolation("assert", id, "assertion "+id+" fails on every input of this path", nil, "", nil)
 		panic(pathEnd{"assert"})
 	}
-	in.recordViolation("assert", id, "assertion "+id+" fails", bad, kfID, region)
+	in.recordViolation("assert", id, "assertion "+id+" fails", bad, "", nil)
 	in.assume(c)
 }
 
-// sort.Slice: for len <= 12 the standard library runs insertion sort (pdqsort's small-slice case,
-// go1.19+); it is reproduced exactly, calling the real `less` closure.
+// recordKnown records one witness of a known finding (inside its region).
+func (in *Interp) recordKnown(id, kfID string, cond *Term) {
+	m := in.getModel(cond)
+	if m == nil {
+		return
+	}
+	in.violSeen["known:"+kfID+":"+id]++
+	in.Violations = append(in.Violations, Violation{Kind: "assert", ID: id, Msg: "known finding " + kfID, Model: m, KnownID: kfID,
+		Harness: in.curHarness, Args: in.curArgs, Choices: append([]int{}, in.choiceLog...)})
+}
+
+// sort.Slice: the engine runs the toolchain's real sort.Slice (the same pdqsort the native build
+// uses; it is deterministic) on a shadow slice of the elements and calls the interpreted `less`
+// closure for every comparison; symbolic comparison results fork the path. The interpreter's backing
+// array is brought up to date before every comparison so that `less` sees the current arrangement.
 func modelSortSlice(in *Interp, fn *ssa.Function, a []Value) Value {
 	iv := a[0].(IfaceV)
 	s, ok := iv.v.(SliceV)
@@ -391,29 +434,48 @@ func modelSortSlice(in *Interp, fn *ssa.Function, a []Value) Value {
 	}
 	less := a[1]
 	n := s.len
-	if n > 12 {
-		return modelSortSliceContract(in, s, less)
+	if n < 2 {
+		return nil
 	}
-	swap := func(i, j int) {
-		in.journalCell(s.c)
-		arr := append(ArrayV{}, s.c.v.(ArrayV)...)
-		arr[s.off+i], arr[s.off+j] = arr[s.off+j], arr[s.off+i]
-		s.c.v = arr
-	}
-	for i := 1; i < n; i++ {
-		for j := i; j > 0; j-- {
-			r := in.invoke(nil, less, []Value{in.ts.BV(uint64(j), 64), in.ts.BV(uint64(j-1), 64)}, nil, nil).(*Term)
-			if !in.branch(r) {
+	elems := make([]Value, n)
+	copy(elems, s.c.v.(ArrayV)[s.off:s.off+n])
+	sync := func() {
+		cur := s.c.v.(ArrayV)
+		same := true
+		for i := 0; i < n; i++ {
+			if !identical(cur[s.off+i], elems[i]) {
+				same = false
 				break
 			}
-			swap(j, j-1)
 		}
+		if same {
+			return
+		}
+		in.journalCell(s.c)
+		arr := append(ArrayV{}, cur...)
+		copy(arr[s.off:s.off+n], elems)
+		s.c.v = arr
 	}
+	sort.Slice(elems, func(i, j int) bool {
+		sync()
+		r := in.invoke(nil, less, []Value{in.ts.BV(uint64(i), 64), in.ts.BV(uint64(j), 64)}, nil, nil).(*Term)
+		return in.branch(r)
+	})
+	sync()
 	return nil
 }
 
-func modelSortSliceContract(in *Interp, s SliceV, less Value) Value {
-	panic(unsupported{"sort.Slice with more than 12 elements"})
+// identical: cheap identity test used to avoid needless writes (pointers and terms by identity).
+func identical(a, b Value) bool {
+	switch x := a.(type) {
+	case Ptr:
+		y, ok := b.(Ptr)
+		return ok && ptrEq(x, y)
+	case *Term:
+		y, ok := b.(*Term)
+		return ok && x == y
+	}
+	return false
 }
 
 // ---------------------------------------------------------------------------------------------
@@ -611,5 +673,46 @@ func (in *Interp) obligationAssume(c *Term) {
 		panic(pathEnd{"infeasible"})
 	case 2:
 		in.assume(c)
+	}
+}
+
+// collectGuarded gathers the cells and maps reachable from v (the state a mutex is meant to guard).
+func (in *Interp) collectGuarded(v Value, depth int) {
+	if depth > 32 {
+		return
+	}
+	switch x := v.(type) {
+	case Ptr:
+		if x.c == nil || in.guardCells[x.c] {
+			return
+		}
+		in.guardCells[x.c] = true
+		in.collectGuarded(x.c.v, depth+1)
+	case SliceV:
+		if x.c == nil || in.guardCells[x.c] {
+			return
+		}
+		in.guardCells[x.c] = true
+		in.collectGuarded(x.c.v, depth+1)
+	case StructV:
+		for _, f := range x {
+			in.collectGuarded(f, depth+1)
+		}
+	case ArrayV:
+		for _, f := range x {
+			in.collectGuarded(f, depth+1)
+		}
+	case MapV:
+		if x.m == nil || in.guardMaps[x.m] {
+			return
+		}
+		in.guardMaps[x.m] = true
+		for _, f := range x.m.vals {
+			in.collectGuarded(f, depth+1)
+		}
+	case IfaceV:
+		if x.t != nil {
+			in.collectGuarded(x.v, depth+1)
+		}
 	}
 }
